@@ -718,15 +718,33 @@ fn script_unrel(rng: &mut Rng, _tier: Tier, ex: &mut dyn FnMut(&str) -> String) 
     // a long resend time keeps acknowledged-late reliable data in flight without it being due again
     let r = Chan { id: 1, kind: "RO", max_mem: 200_000, resend_us: rng.pick(&[100_000u64, 100_000, 5_000_000]) };
     let order = if rng.chance(1, 2) { vec![u.clone(), r.clone()] } else { vec![r.clone(), u.clone()] };
-    let budget = rng.pick(&[2500u64, 3000, 3700, 4900, 6000, 7300, 10_000]);
+    let budget = rng.pick(&[2500u64, 3000, 3700, 4900, 6000, 7300, 10_000, 2400, 3600, 4800]);
     let big_rel = rng.chance(1, 3);
+    // an earlier reliable channel that uses the tick's budget to the last byte
+    let exact = budget % 1200 == 0 && order[0].kind == "RO" && rng.chance(1, 2);
     ex(&cfg_line(budget, &order, &order));
     ex("cli 0");
     ex("add 100");
     ex("setc 0");
     let ticks = rng.range(4, 10);
     let mut next = 0usize;
-    for _ in 0..ticks {
+    for tick in 0..ticks {
+        if exact && tick == 1 {
+            let m = rng.payload(budget as usize);
+            ex(&format!("send c0 1 {}", hex(&m)));
+            let m = rand_small(rng, 300);
+            ex(&format!("send c0 0 {}", hex(&m)));
+            ex("upd c0 101000");
+            ex("upd srv 101000");
+            let k = pkts_count(&ex("flush c0"));
+            for i in 0..k {
+                ex(&format!("dlv s100 c0 {}", next + i));
+            }
+            next += k;
+            drain(ex, "s100", 0, 1000);
+            drain(ex, "s100", 1, 1000);
+            continue;
+        }
         for _ in 0..rng.range(1, 4) {
             // lengths that need 2..6 slices, often just below a multiple of 1200
             let k = rng.range(2, 6) as usize;
@@ -974,8 +992,18 @@ fn script_hostile(rng: &mut Rng, tier: Tier, ex: &mut dyn FnMut(&str) -> String)
 // E2 multi: several honest clients with independent fault schedules, broadcasts, one hostile
 // ---------------------------------------------------------------------------------------------
 fn script_multi(rng: &mut Rng, tier: Tier, ex: &mut dyn FnMut(&str) -> String) {
-    let sc = default_chans();
+    let mut sc = default_chans();
     let mut cc = default_chans();
+    // a quarter of the cases: small reliable send budgets at the server, so that a stalled client's channel fills up
+    let tight = rng.chance(1, 4);
+    if tight {
+        let m = rng.pick(&[3000usize, 6000, 10_000]);
+        for c in sc.iter_mut() {
+            if c.kind != "U" {
+                c.max_mem = m;
+            }
+        }
+    }
     if rng.chance(1, 3) {
         // the two directions need not agree on what a channel id means: the client sends on ids whose kind
         // differs from the kind the server uses for the same id
@@ -997,7 +1025,12 @@ fn script_multi(rng: &mut Rng, tier: Tier, ex: &mut dyn FnMut(&str) -> String) {
     }
     let ticks = if tier == Tier::Quick { rng.range(3, 10) } else { rng.range(5, 25) };
     let mut net = Net::new();
-    let faults: Vec<(u64, u64, u64)> = (0..n).map(|_| (rng.pick(&[0u64, 20, 50]), rng.pick(&[0u64, 20]), rng.pick(&[0u64, 30]))).collect();
+    let mut faults: Vec<(u64, u64, u64)> = (0..n).map(|_| (rng.pick(&[0u64, 20, 50]), rng.pick(&[0u64, 20]), rng.pick(&[0u64, 30]))).collect();
+    if tight {
+        // one client's link is down for the whole faulty phase: nothing it sends or is sent arrives until the heal
+        let stalled = rng.below(n) as usize;
+        faults[stalled] = (100, 0, 0);
+    }
     let victim = if rng.chance(1, 2) { Some(rng.below(n)) } else { None };
     let mut sent_bytes = 0u64;
     for tick in 0..ticks {
@@ -1366,6 +1399,54 @@ fn sweep_arrangement(mut idx: usize) -> Vec<u64> {
     vec![]
 }
 
+/// many connect / disconnect reports between two polls of `get_event` (an application that polls once per frame
+/// while clients flap): every report must still come out, once, in order
+fn events_burst_ops(case: usize) -> Vec<String> {
+    let mut ops = vec![cfg_line(60_000, &default_chans(), &default_chans())];
+    match case {
+        0 => {
+            // 1100 connects before the first poll, then everything is removed with a poll after each removal
+            for id in 0..1100u64 {
+                ops.push(format!("add {}", 1000 + id));
+            }
+            for _ in 0..1100 {
+                ops.push("ev".into());
+            }
+            for id in 0..1100u64 {
+                ops.push(format!("rem {}", 1000 + id));
+                ops.push("ev".into());
+            }
+        }
+        1 => {
+            // three ids flapping 200 times (1200 reports) between two polls
+            for _ in 0..200 {
+                for id in [7u64, 8, 9] {
+                    ops.push(format!("add {}", id));
+                }
+                for id in [7u64, 8, 9] {
+                    ops.push(format!("rem {}", id));
+                }
+            }
+            for _ in 0..1201 {
+                ops.push("ev".into());
+            }
+        }
+        _ => {
+            // control: exactly 1024 reports queued
+            for id in 0..512u64 {
+                ops.push(format!("add {}", 1000 + id));
+                ops.push(format!("rem {}", 1000 + id));
+            }
+            for _ in 0..1025 {
+                ops.push("ev".into());
+            }
+        }
+    }
+    ops.push("ev".into());
+    ops.push("ids".into());
+    ops
+}
+
 const SWEEP_ACKS_N: usize = 13_700;
 
 /// the range list at / around its cap: n single-element ranges 10, 12, 14, …, then one or two late or new
@@ -1547,10 +1628,12 @@ fn script_tight(rng: &mut Rng, _tier: Tier, ex: &mut dyn FnMut(&str) -> String) 
         _ => {}
     }
     let lose = rng.below(k.max(1) as u64) as usize;
+    let mut delivered_idx: Vec<usize> = vec![];
     for (j, i) in order.iter().enumerate() {
         if j == lose && rng.chance(1, 2) {
             continue;
         }
+        delivered_idx.push(*i);
         ex(&format!("dlv s100 c0 {}", i));
         if rng.chance(1, 3) {
             drain(ex, "s100", 2, 2);
@@ -1558,6 +1641,17 @@ fn script_tight(rng: &mut Rng, _tier: Tier, ex: &mut dyn FnMut(&str) -> String) 
     }
     ex("dump s100");
     ex("stat s100");
+    if rng.chance(1, 2) {
+        // the network duplicates: packets that already arrived arrive again (no new content)
+        for (j, i) in order.iter().enumerate() {
+            if !(j == lose && false) && rng.chance(1, 2) {
+                if delivered_idx.contains(i) {
+                    ex(&format!("dlv s100 c0 {}", i));
+                }
+            }
+        }
+        ex("stat s100");
+    }
     // heal
     let mut next = k;
     let mut next_s = 0usize;
@@ -1962,6 +2056,16 @@ pub fn profiles() -> Vec<Profile> {
         nontrivial: |_| true,
         keep: |_| 5,
         fixed: Some(sweep_slices_ops),
+    },
+    Profile {
+        name: "rn-events-burst",
+        props: &["C12", "C11"],
+        cases: |_| 3,
+        new_world,
+        script: script_none,
+        nontrivial: |_| true,
+        keep: |_| 1,
+        fixed: Some(events_burst_ops),
     },
     Profile {
         name: "rn-sweep-acks-cap",
@@ -2815,6 +2919,7 @@ fn oracle_unrel_work_conserving(ops: &[String], outs: &[String]) -> Option<Oracl
     // endpoint -> per unreliable channel: (queued messages (hex), memory in use)
     let mut queued: HashMap<String, HashMap<u8, (Vec<String>, usize)>> = HashMap::new();
     let mut pending: Vec<(usize, String, OracleFail)> = vec![]; // verdicts waiting for a `stat <who>` = connected
+    let mut ever_sent: HashMap<String, std::collections::HashSet<String>> = HashMap::new();
     for (i, (op, out)) in ops.iter().zip(outs.iter()).enumerate() {
         let t: Vec<&str> = op.split(' ').collect();
         match t[0] {
@@ -2834,6 +2939,7 @@ fn oracle_unrel_work_conserving(ops: &[String], outs: &[String]) -> Option<Oracl
                         if e.1 + len <= c.2 {
                             e.1 += len;
                             e.0.push(t[3].to_string());
+                            ever_sent.entry(t[1].to_string()).or_default().insert(t[3].to_string());
                         }
                     }
                 }
@@ -2870,6 +2976,23 @@ fn oracle_unrel_work_conserving(ops: &[String], outs: &[String]) -> Option<Oracl
                     let m: Vec<u8> = v.into_iter().flat_map(|x| x.1).collect();
                     carried.entry(ch).or_default().push(hex(&m));
                 }
+                // "what does not fit is dropped whole": whatever an unreliable channel emits was queued since the
+                // previous flush (the flush pops the whole queue); an older message turning up now was kept, not dropped
+                for (ch, got) in carried.iter() {
+                    let mut avail: Vec<String> = q.get(ch).map(|e| e.0.clone()).unwrap_or_default();
+                    for g in got {
+                        match avail.iter().position(|m| m == g) {
+                            Some(pos) => {
+                                avail.remove(pos);
+                            }
+                            None => {
+                                if ever_sent.get(&who).map(|v| v.contains(g)).unwrap_or(false) {
+                                    return fail(i, "unreliable-sent-late", format!("{} emits a {}-byte unreliable message on channel {} that was queued before an earlier flush (it should have gone out or been dropped then)", who, if g == "-" { 0 } else { g.len() / 2 }, ch));
+                                }
+                            }
+                        }
+                    }
+                }
                 for (ch, (msgs, _)) in q.iter() {
                     let mut got = carried.remove(ch).unwrap_or_default();
                     for m in msgs {
@@ -2897,6 +3020,63 @@ fn oracle_unrel_work_conserving(ops: &[String], outs: &[String]) -> Option<Oracl
                     let mut f = pending.remove(pos).2;
                     f.at = i;
                     return Some(f);
+                }
+            }
+            _ => {}
+        }
+    }
+    None
+}
+
+/// C09 / C01 / C02 (duplication is harmless): between a `stat X` = connected and the next `stat X`, if the only
+/// datagrams handed to X were re-deliveries of genuine peer packets X had already been given before (network
+/// duplication: no new content) and nothing else was done to X, then X is still connected — in particular it is
+/// "never disconnected for exhausted channel memory" by data it already holds.
+fn oracle_duplicates_harmless(ops: &[String], outs: &[String]) -> Option<OracleFail> {
+    let mut seen: HashMap<String, std::collections::HashSet<String>> = HashMap::new(); // endpoint -> delivered (from, k)
+    let mut window: HashMap<String, (usize, bool, usize)> = HashMap::new(); // endpoint -> (op of connected stat, only dups so far, dup count)
+    for (i, (op, out)) in ops.iter().zip(outs.iter()).enumerate() {
+        let t: Vec<&str> = op.split(' ').collect();
+        match t[0] {
+            "raw" | "dlvm" | "rem" | "lnew" | "lproc" | "sdisc" | "sdiscall" | "disc" | "disct" | "ldisc" => return None,
+            "stat" if t.len() == 2 => {
+                if out == "connected" {
+                    window.insert(t[1].to_string(), (i, true, 0));
+                } else if out.starts_with("disconnected") {
+                    if let Some((at, only_dups, n)) = window.remove(t[1]) {
+                        if only_dups && n > 0 {
+                            return fail(i, "duplicate-delivery-disconnects", format!("{} was connected at op {}, was then handed only {} duplicate(s) of datagrams it had already received, and is now `{}`", t[1], at, n, out));
+                        }
+                    }
+                }
+            }
+            "dlv" if t.len() == 4 => {
+                let key = format!("{}:{}", t[2], t[3]);
+                let genuine = peer_of(t[1]).as_deref() == Some(t[2]);
+                let dup = genuine && seen.get(t[1]).map(|s| s.contains(&key)).unwrap_or(false);
+                if let Some(w) = window.get_mut(t[1]) {
+                    if dup && out == "ok" {
+                        w.2 += 1;
+                    } else {
+                        w.1 = false;
+                    }
+                }
+                if genuine && out == "ok" {
+                    seen.entry(t[1].to_string()).or_default().insert(key);
+                }
+            }
+            // anything else done to an endpoint ends its window (send can fail a send channel, recv/upd/flush are
+            // harmless but keep the rule simple and obviously sound)
+            "send" | "recv" | "upd" | "flush" | "setc" | "setg" | "bcast" | "bcastx" if t.len() >= 2 => {
+                let who = if t[0] == "upd" && t[1] == "srv" { None } else { Some(t[1].to_string()) };
+                match who {
+                    Some(w) => {
+                        window.remove(&w);
+                    }
+                    None => window.retain(|k, _| !k.starts_with('s')),
+                }
+                if t[0] == "bcast" || t[0] == "bcastx" {
+                    window.retain(|k, _| !k.starts_with('s'));
                 }
             }
             _ => {}
@@ -3155,13 +3335,16 @@ pub fn oracles() -> Vec<Oracle> {
         Oracle { prop: "C08", name: "acks-are-the-set", engines: &["rn-sweep-acks"], check: oracle_sweep_acks },
         Oracle { prop: "C06", name: "no-panic-bounded", engines: &["rn-"], check: oracle_c06 },
         Oracle { prop: "C09", name: "query-api", engines: &["rn-pair"], check: oracle_cansend },
+        Oracle { prop: "C09", name: "duplicates-harmless", engines: &["rn-tight", "rn-pair", "rn-timing"], check: oracle_duplicates_harmless },
+        Oracle { prop: "C01", name: "duplicates-harmless", engines: &["rn-tight", "rn-pair", "rn-timing"], check: oracle_duplicates_harmless },
+        Oracle { prop: "C02", name: "duplicates-harmless", engines: &["rn-tight", "rn-pair", "rn-timing"], check: oracle_duplicates_harmless },
         Oracle { prop: "C15", name: "never-after-ack-processed", engines: &["rn-pair", "rn-timing", "rn-acks", "rn-tight", "rn-long", "rn-unrel"], check: oracle_c15_acked },
         Oracle { prop: "C14", name: "unreliable-work-conserving", engines: &["rn-unrel", "rn-pair", "rn-timing", "rn-long"], check: oracle_unrel_work_conserving },
         Oracle { prop: "C11", name: "unreliable-work-conserving", engines: &["rn-unrel", "rn-pair", "rn-timing", "rn-long"], check: oracle_unrel_work_conserving },
         Oracle { prop: "C09", name: "unreliable-in-budget", engines: &["rn-unrel"], check: oracle_unrel_budget },
         Oracle { prop: "C03", name: "unreliable-in-budget", engines: &["rn-unrel"], check: oracle_unrel_budget },
         Oracle { prop: "C09", name: "accounting", engines: &["rn-pair", "rn-hostile", "rn-regress", "rn-long", "rn-timing", "rn-acks", "rn-tight", "rn-sweep-slices"], check: oracle_c09 },
-        Oracle { prop: "C12", name: "finality-events", engines: &["rn-api", "rn-regress", "rn-hostile"], check: oracle_c12 },
+        Oracle { prop: "C12", name: "finality-events", engines: &["rn-api", "rn-regress", "rn-hostile", "rn-events-burst"], check: oracle_c12 },
         Oracle { prop: "C13", name: "packet-size", engines: &["rn-pair", "rn-regress", "rn-multi", "rn-hostile", "rn-long", "rn-timing", "rn-acks"], check: oracle_c13 },
         Oracle { prop: "C14", name: "budget", engines: &["rn-pair", "rn-multi", "rn-unrel", "rn-timing"], check: oracle_c14 },
         Oracle { prop: "C15", name: "resend-timing", engines: &["rn-pair", "rn-timing"], check: oracle_c15 },
